@@ -11,6 +11,6 @@ mkdir -p "$D"
 [ -d "$D/repo" ] || git -C /repo worktree add --detach "$D/repo" HEAD >/dev/null
 rsync -a --exclude .build --exclude .git --exclude replays /verif/ "$D/verif/"
 sed -i "s#/repo/#$D/repo/#g" "$D/verif/harness/Cargo.toml"
-sed -i "s#/verif/.build/harness#$D/verif/.build/harness#" "$D/verif/harness/.cargo/config.toml"
+true
 sed -i "s#R=\${1:-/repo}#R=\${1:-$D/repo}#" "$D/verif/tools/baseline.sh"
 echo "$D"
